@@ -379,7 +379,7 @@ def r5(R5, cfg, F):
         if ok:
             snd = [c for c in rl.calls() if c.callee and c.callee.best == 'crossbeam_channel::Sender::<T>::send']
             msg = [s for s in agg_of(rl, snd[0].args[1]) if s['rv'].get('variant_name') == 'Ptr']
-            mp = [c for c in rl.calls() if rl.access_path(c.args[0]) == ['arg2']] if msg else []
+            mp = [c for c in rl.calls() if c.args and rl.access_path(c.args[0]) == ['arg2']] if msg else []
             ok = bool(mp) and (rl.access_path(msg[0]['rv']['ops'][0]) or [''])[0] == 'call@bb%d' % mp[0].bb
         R5.check(ok, cfg, rl.path, 'waits-for-own-token-after-successful-send', 'reload must wait for the answer carrying the token it just sent, on every path after a successful send', rl.loc())
     # reloader: notify(token) after update_if_local returns
